@@ -238,28 +238,6 @@ def check(model: Model, run: Run) -> None:
         flat = [n[0] for n in names]
         run.check('Notify' in flat and 'Notification' in flat and flat.index('Notify') < flat.index('Notification'), runf.qualname, 'handler order %s' % flat, runf.loc(), 'except Notify must precede except Notification (Notify is a subclass)')
 
-    # a NOTIFICATION refused by the framing checks (Length 19 or 20, Length above the message size) is still a NOTIFICATION
-    # the peer sent: read_message must not turn the reader's error into a Notify for it
-    from ..alpha import Loc, facts
-
-    rmf = model.func('exabgp.reactor.protocol.Protocol.read_message')
-    run.analysed(rmf)
-    rl = Loc(model, rmf)
-    unpacked = rl.unpacked_from_call('Connection.reader_async')
-    errv = unpacked.get(4)
-    found_raise = 0
-    for r in walk_no_nested(rmf.node):
-        if not (isinstance(r, ast.Raise) and r.exc is not None and errv):
-            continue
-        e = rl.resolve(r.exc)
-        if isinstance(e, ast.Call) and model.call_matches(rmf.module, e, 'Notify') and any(isinstance(x, ast.Name) and x.id == errv for a in e.args for x in ast.walk(a)):
-            found_raise += 1
-            fs = facts(rl, r, keep=list(unpacked.values()))
-            ok = any('Message.CODE.NOTIFICATION' in f_ for f_ in fs)
-            run.check(ok, rmf.qualname, 'the framing error of the reader is raised as a Notify only for a message that is not a NOTIFICATION', rmf.loc(r), 'a NOTIFICATION whose header Length is 19 or 20 (or above the message size) fails the framing check: raised as Notify(1, 2) it is answered with a NOTIFICATION (RFC 4271 6.5 forbids it; Notification.unpack_message pads a short body for that very reason, but is never reached)')
-    if not found_raise:
-        run.cannot('read_message: the raise of the reader\'s framing error was not found')
-
     # ------------------------------------------------------------------ R4
     run.rule('C10.R4', 'in the `except Notify` arm of Peer._run new_notification is called exactly once on every path where a transport exists, followed by _reset on all paths, with no other write in between; Protocol.close drops the connection and every writer starts with a connection guard', floor=4)
     _r4_once(model, run, runf)
